@@ -19,6 +19,7 @@ def impl_codec(case):
     name, kw, _ = canon.kwargs_of(ints)
     t = time_of(tok)
     fail = None
+    canon.noise()           # a refused call before this one: it must make no difference
     try:
         m = mido.Message(name, time=t, **kw)
         bs = m.bytes()
@@ -65,6 +66,12 @@ def impl_codec(case):
             again = list(mido.Message(name, time=t, **kw).bytes())
             if again != snapshot or list(m.bytes()) != snapshot or bytes(m.bin()) != bytes(snapshot):
                 why = 'after the list returned by bytes() was modified by its caller, bytes() returns %r instead of %r' % (again, snapshot)
+        if not why:
+            # ... and the decoded message belongs to its caller as well: edited, it must not come back from the next decoding of the same bytes
+            canon.scribble(m2)
+            m3 = mido.Message.from_bytes(snapshot, time=t)
+            if m3 is m2 or not (m3 == m):
+                why = 'after the message returned by from_bytes was edited by its caller, from_bytes(%r) returns %r' % (snapshot, m3)
         if why:
             fail = ('codec:' + name, '%s with %r time=%r: %s' % (name, kw, t, why))
     except Exception as e:  # noqa: BLE001
@@ -83,6 +90,7 @@ def impl_hex(case):
     name, kw, _ = canon.kwargs_of(ints)
     t = time_of(tok)
     fail = None
+    canon.noise()
     try:
         m = mido.Message(name, time=t, **kw)
         txt = m.hex(sep)
@@ -94,6 +102,11 @@ def impl_hex(case):
             out += [0] + canon.msg_ints(m2) + [tt]
             if not (m2 == m):
                 fail = ('hex:' + name, 'from_hex(hex(%r, %r)) = %r' % (m, sep, m2))
+            else:
+                canon.scribble(m2)
+                m3 = mido.Message.from_hex(txt, time=t, sep=sep) if given else mido.Message.from_hex(txt, time=t)
+                if m3 is m2 or not (m3 == m):
+                    fail = ('hex:' + name, 'after the message returned by from_hex was edited by its caller, from_hex(%r) returns %r' % (txt, m3))
         except Exception as e:  # noqa: BLE001
             out += [-1, core.exn_code(e)]
             fail = ('hex:' + name, 'from_hex(%r, sep=%r) raised %r for %r' % (txt, sep if given else None, e, m))
@@ -111,16 +124,16 @@ def _job(job):
     if kind == 'range':
         lo, hi = arg
         cases = [canon.nth_message(i) + [i % 7] for i in range(lo, hi)]
-        rec = core.eval_cases(COMP_CODEC, cases, impl_codec, max_keep=5)
+        rec = core.eval_cases(COMP_CODEC, cases, impl_codec, max_keep=5, repeat=60, fresh=True)
         rec['hashes'] = set()          # distinct by construction; counted, not stored
         rec['distinct'] = sum(1 for c in cases if any(c[1:-1]))
         return 'codec', rec
     if kind == 'codec':
-        rec = core.eval_cases(COMP_CODEC, arg, impl_codec)
+        rec = core.eval_cases(COMP_CODEC, arg, impl_codec, repeat=60, fresh=True)
         rec['distinct'] = None
         return 'codec', rec
     if kind == 'hex':
-        rec = core.eval_cases(COMP_HEX, arg, impl_hex)
+        rec = core.eval_cases(COMP_HEX, arg, impl_hex, repeat=60, fresh=True)
         rec['distinct'] = None
         return 'hex', rec
     raise ValueError(kind)
